@@ -1,4 +1,5 @@
 """C11 TDD three-valued logic"""
+import substrate
 import edm
 import ector
 import ecof
@@ -75,4 +76,5 @@ def run(ctx):
                 "edges: it compares and hashes all key parts, and every entry is cleared (under its lock) in pre_gc / before a "
                 "reordering, so that no entry survives the collection of one of its nodes and is served for a recycled id.")
     edm.run(ctx, F)
+    substrate.run(ctx, F, dm=False)
     ctx.not_decided = "the value eval assumes for variables missing from its arguments"
